@@ -30,8 +30,9 @@ static inline ref_hostloc_t ref_host_delimiter(sv_t v, _Bool special) {
 }
 
 /* ---- "ends in a number checker" (URL Standard 3.5): split on '.', drop one trailing empty label, last label is
- * all ASCII digits (non-empty) or 0x/0X followed by (possibly zero) hex digits.  ada::checkers::is_ipv4 is called on
- * a non-empty, already lower-cased host, so upper-case hex / "0X" need not be recognised (pre-condition). */
+ * all ASCII digits (non-empty) or 0x/0X followed by (possibly zero) ASCII hex digits of either case -- exactly the Standard's
+ * checker.  ada::checkers::is_ipv4 only recognises the lower-case spellings; its PRECONDITION (stated in the harness and checked
+ * at the fast path's call site by C01.try_parse_simple_absolute<url_aggregator>.standard) is that the host holds no A-Z. */
 static inline _Bool ref_ends_in_number(sv_t v) {
   size_t n = v.n;
   if (n > 0 && v.p[n - 1] == '.') { n--; if (n == 0) return 0; }
@@ -43,10 +44,10 @@ static inline _Bool ref_ends_in_number(sv_t v) {
   _Bool all_digits = 1;
   for (size_t i = start; i < n; i++) if (!(v.p[i] >= '0' && v.p[i] <= '9')) all_digits = 0;
   if (all_digits) return 1;
-  if (len >= 2 && v.p[start] == '0' && (v.p[start + 1] == 'x')) {
+  if (len >= 2 && v.p[start] == '0' && (v.p[start + 1] == 'x' || v.p[start + 1] == 'X')) {
     for (size_t i = start + 2; i < n; i++) {
       char c = v.p[i];
-      if (!((c >= '0' && c <= '9') || (c >= 'a' && c <= 'f'))) return 0;
+      if (!SPEC_ASCII_HEX(c)) return 0;
     }
     return 1;
   }
